@@ -297,7 +297,7 @@ Lemma apply_local_names_idc : forall l m ids ids0 m',
 Proof.
   induction l as [|[fi names] r IH]; intros m ids ids0 m' H E; cbn [apply_local_names] in E.
   - inversion E; subst; exact H.
-  - destruct (nth_N (ii_funcs ids) fi); [|discriminate]. eapply IH; [|exact E]. clear - H. idc_solve.
+  - destruct (nth_N (ii_funcs ids) fi); [|eapply IH; eassumption]. eapply IH; [|exact E]. clear - H. idc_solve.
 Qed.
 
 Lemma idc_set_funcs m a ids : ids_consistent m ids ->
